@@ -192,6 +192,20 @@ func compareDumps(label string, want, got map[string]string, prog [][]string) {
 	}
 }
 
+func interesting(log string) string {
+	var out []string
+	for _, l := range strings.Split(log, "\n") {
+		low := strings.ToLower(l)
+		if len(l) < 400 && (strings.Contains(low, "fatal") || strings.Contains(low, "panic") || strings.Contains(low, "bind") || strings.Contains(low, "listen") || strings.Contains(low, "error") || strings.Contains(low, "stopp") || strings.Contains(low, "removed")) {
+			out = append(out, l)
+		}
+	}
+	if len(out) > 12 {
+		out = out[len(out)-12:]
+	}
+	return strings.Join(out, "\n")
+}
+
 func trunc(s string) string {
 	if len(s) > 300 {
 		return s[:300] + "..."
@@ -346,6 +360,229 @@ func main() {
 	}
 	deploy("1-node cluster", []*respc.Client{cc1}, o.Pick(1200, 20000), 20, 0)
 	deploy("3-node cluster", cc3, o.Pick(150, 2500), 20, 500000)
+
+	// Several connections at once: their commands reach the replicated log together and are committed, decoded and
+	// applied in batches. Every connection works on keys of its own, so the standalone server running the same
+	// programs one after the other is still the oracle for every reply and for the final state.
+	clusterKeys := []string{"k", "a b", "", " ", "K", "k\r\n", "\xff\xfe", "\u00e9", "x  y", "tr "}
+	batchRounds, batchCmds := 0, 0
+	concurrent := func(name string, cl *cluster.Cluster, width, nProg int, seedOff int64) {
+		var conns, all []*respc.Client
+		for j := 0; j < width; j++ {
+			c, err := respc.Dial(cl.Nodes[j%len(cl.Nodes)].Addr(), 30*time.Second)
+			if err != nil {
+				fail("dial " + name)
+			}
+			defer c.Close()
+			conns = append(conns, c)
+		}
+		for _, nd := range cl.Nodes {
+			c, err := respc.Dial(nd.Addr(), 30*time.Second)
+			if err != nil {
+				fail("dial " + name)
+			}
+			defer c.Close()
+			all = append(all, c)
+		}
+		for p := 0; p < nProg; p++ {
+			reset(ca)
+			reset(all[0])
+			progsJ := make([][][][]byte, width)
+			var trace [][]string
+			for j := 0; j < width; j++ {
+				r := rand.New(rand.NewSource(o.Seed*1000003 + seedOff + int64(p)*64 + int64(j)))
+				for _, cmd := range gen.Program(r, gen.FCluster, 12) {
+					nm := strings.ToUpper(string(cmd[0]))
+					if why := excluded(nm, cmd); why != "" {
+						skipped[nm+": "+why]++
+						continue
+					}
+					if nm == "KEYS" {
+						skipped["KEYS: sees the keys of the other connections (concurrent phase only)"]++
+						continue
+					}
+					c2 := make([][]byte, len(cmd))
+					c2[0] = cmd[0]
+					for i := 1; i < len(cmd); i++ {
+						c2[i] = cmd[i]
+						for _, k := range clusterKeys {
+							if string(cmd[i]) == k {
+								c2[i] = []byte(fmt.Sprintf("c%d:%s", j, k))
+							}
+						}
+					}
+					progsJ[j] = append(progsJ[j], c2)
+				}
+			}
+			want := make([][]respc.Value, width)
+			for j := range progsJ {
+				for _, cmd := range progsJ[j] {
+					v, err := ca.DoB(cmd)
+					if err != nil {
+						fail("standalone connection failed: " + err.Error() + " " + alone.CrashLine())
+					}
+					want[j] = append(want[j], v)
+				}
+			}
+			okProg := true
+			for i := 0; okProg; i++ {
+				var live []int
+				for j := range progsJ {
+					if i < len(progsJ[j]) {
+						live = append(live, j)
+					}
+				}
+				if len(live) == 0 {
+					break
+				}
+				batchRounds++
+				for _, j := range live {
+					trace = append(trace, append([]string{fmt.Sprintf("conn%d:", j)}, quote(progsJ[j][i])...))
+					if err := conns[j].Send(progsJ[j][i]); err != nil {
+						okProg = false
+					}
+				}
+				for _, j := range live {
+					cmd := progsJ[j][i]
+					nm := strings.ToUpper(string(cmd[0]))
+					vc, err := conns[j].Recv()
+					if err != nil {
+						report(witness{Kind: "no-reply", Detail: fmt.Sprintf("%s: no reply to %v sent together with %d other commands: %v", name, quote(cmd), len(live)-1, err), Program: trace, Sig: "no-reply|" + nm})
+						okProg = false
+						break
+					}
+					cmds++
+					batchCmds++
+					for _, a := range cmd[1:] {
+						tuples[nm+"|"+classOf(a)]++
+					}
+					if normalise(nm, want[j][i]) != normalise(nm, vc) {
+						report(witness{Kind: "reply", Detail: fmt.Sprintf("%s, %d connections sending at once: %v\n standalone: %s\n cluster:    %s", name, len(live), quote(cmd), want[j][i].String(), vc.String()), Program: trace,
+							Sig: "reply|concurrent|" + nm})
+						okProg = false
+						break
+					}
+				}
+			}
+			progs++
+			if !okProg {
+				// the connections may be out of step now
+				return
+			}
+			wantDump, err := dumpOf(ca)
+			if err != nil {
+				fail("standalone dump: " + err.Error())
+			}
+			for ni, conn := range all {
+				if _, err := conn.Do("SET", "__ready:barrier", strconv.Itoa(p)); err != nil {
+					report(witness{Kind: "no-reply", Detail: fmt.Sprintf("%s node %d: barrier write failed: %v", name, ni+1, err), Sig: "no-reply|barrier"})
+					continue
+				}
+				got, err := dumpOf(conn)
+				if err != nil {
+					report(witness{Kind: "state", Detail: fmt.Sprintf("%s node %d: dump failed: %v", name, ni+1, err), Sig: "state|dump-failed"})
+					continue
+				}
+				compareDumps(fmt.Sprintf("%s node %d (concurrent connections)", name, ni+1), wantDump, got, trace)
+			}
+		}
+	}
+	concurrent("1-node cluster", c1, 6, o.Pick(40, 600), 900000)
+	concurrent("3-node cluster", c3, 6, o.Pick(40, 600), 950000)
+
+	// A replica that was stopped for a while receives what it missed in one piece, and a restarted replica re-applies
+	// its whole log: both must end with the standalone server's keyspace (the last concurrent program is still loaded).
+	replays, lagSkipped := 0, 0
+	if len(bySig) == 0 {
+		wantDump, err := dumpOf(ca)
+		if err != nil {
+			fail("standalone dump: " + err.Error())
+		}
+		lag := func(name string, cl *cluster.Cluster, id int, restart bool) {
+			how := "stopped (SIGSTOP) during a program and continued"
+			if restart {
+				how = "killed and restarted (re-applies its log)"
+				cl.Kill(id)
+			} else {
+				cl.Pause(id)
+			}
+			// more commands while the replica is away, the same ones on the standalone server
+			uncertain := false
+			if !cl.WaitWritable(id%len(cl.Nodes)+1, 60*time.Second) {
+				uncertain = true
+			}
+			via, err := respc.Dial(cl.Nodes[id%len(cl.Nodes)].Addr(), 30*time.Second)
+			if err != nil {
+				return
+			}
+			via.Timeout = 8 * time.Second
+			defer via.Close()
+			r := rand.New(rand.NewSource(o.Seed*1000003 + 990000 + int64(id)))
+			var trace [][]string
+			if len(cl.Nodes) > 1 && !uncertain {
+				for _, cmd := range gen.Program(r, gen.FCluster, 20) {
+					nm := strings.ToUpper(string(cmd[0]))
+					if excluded(nm, cmd) != "" {
+						continue
+					}
+					trace = append(trace, quote(cmd))
+					vc, errc := via.DoB(cmd)
+					if errc != nil {
+						// a proposal dropped during the leader change is never answered: whether it took effect is open
+						uncertain = true
+						break
+					}
+					va, erra := ca.DoB(cmd)
+					if erra != nil {
+						fail("standalone connection failed: " + erra.Error())
+					}
+					cmds++
+					if normalise(nm, va) != normalise(nm, vc) {
+						report(witness{Kind: "reply", Detail: fmt.Sprintf("%s: %v\n standalone: %s\n cluster:    %s", name, quote(cmd), va.String(), vc.String()), Program: trace, Sig: "reply|" + nm})
+						uncertain = true
+						break
+					}
+				}
+				wantDump, err = dumpOf(ca)
+				if err != nil {
+					fail("standalone dump: " + err.Error())
+				}
+			}
+			if restart {
+				if err := cl.StartNode(id); err != nil {
+					report(witness{Kind: "crash", Detail: fmt.Sprintf("%s node %d does not restart: %v", name, id, err), Sig: "crash|restart failed"})
+					return
+				}
+			} else {
+				cl.Resume(id)
+			}
+			if !cl.WaitWritable(id, 240*time.Second) {
+				fail(fmt.Sprintf("%s node %d did not serve writes after it was %s", name, id, how))
+			}
+			conn, err := respc.Dial(cl.Nodes[id-1].Addr(), 30*time.Second)
+			if err != nil {
+				return
+			}
+			defer conn.Close()
+			if _, err := conn.Do("SET", "__ready:barrier", "lag"); err != nil {
+				report(witness{Kind: "no-reply", Detail: fmt.Sprintf("%s node %d: barrier write failed: %v", name, id, err), Sig: "no-reply|barrier"})
+				return
+			}
+			got, err := dumpOf(conn)
+			if err != nil {
+				report(witness{Kind: "state", Detail: fmt.Sprintf("%s node %d: dump failed: %v", name, id, err), Sig: "state|dump-failed"})
+				return
+			}
+			if uncertain {
+				lagSkipped++
+				return
+			}
+			replays++
+			compareDumps(fmt.Sprintf("%s node %d after it was %s", name, id, how), wantDump, got, trace)
+		}
+		lag("3-node cluster", c3, 3, false)
+		lag("3-node cluster", c3, 2, true)
+	}
 	// the cluster command filter must reject exactly PUBLISH/SUBSCRIBE, in any letter case
 	for _, w := range []string{"publish", "PUBLISH", "PubLish", "subscribe", "SUBSCRIBE"} {
 		args := []string{w, "ch", "m"}
@@ -361,7 +598,7 @@ func main() {
 	for _, cl := range []*cluster.Cluster{c1, c3} {
 		for _, nd := range cl.Nodes {
 			if nd.Srv.Exited() {
-				crashed = fmt.Sprintf("node %d exited: %s", nd.ID, nd.Srv.CrashLine())
+				crashed = fmt.Sprintf("node %d exited: %s\n%s", nd.ID, nd.Srv.CrashLine(), strings.Join(cl.Grep(nd.ID, []string{"fatal", "panic:", "goroutine ", "bind", "stopp", "removed", "exit", "raft"}, 400, 25), "\n"))
 			}
 		}
 	}
@@ -403,12 +640,16 @@ func main() {
 			"distinct_nontrivial": len(tuples),
 			"rule": "programs mixing every command family with arguments a lossy re-encoding would damage (empty, spaces, tabs, CR/LF, quotes, backslashes, valid and invalid UTF-8, NUL, 64 KiB) and command names in any letter case, sent in lock-step to a standalone server and to a 1-node / 3-node cluster of the same binary; " +
 				"replies compared byte for byte (unordered collections as multisets), replica dumps compared with the standalone dump after a barrier write through every node; distinct = (command, argument byte class) pairs that went through the replicated log",
-			"samples":              []any{[]string{"SET", "a b", ""}, []string{"RPUSH", "k", " lead", "\xff\xfe"}, []string{"hSeT", "", "a  b", "\t"}},
-			"commands_compared":    cmds,
-			"excluded_with_reason": skipped,
-			"deployments":          []string{"standalone vs 1-node cluster", "standalone vs 3-node cluster (commands round-robin over the nodes, every replica dumped)"},
-			"known_finding_hits":   knownHits,
-			"violation_samples":    vs,
+			"samples":                                   []any{[]string{"SET", "a b", ""}, []string{"RPUSH", "k", " lead", "\xff\xfe"}, []string{"hSeT", "", "a  b", "\t"}},
+			"commands_compared":                         cmds,
+			"excluded_with_reason":                      skipped,
+			"deployments":                               []string{"standalone vs 1-node cluster", "standalone vs 3-node cluster (commands round-robin over the nodes, every replica dumped)", "6 connections sending at once on keys of their own (batched commit/apply), replies and every replica's dump compared", "a replica stopped and continued, a replica killed and restarted (log re-applied): dump compared"},
+			"concurrent_rounds":                         batchRounds,
+			"concurrent_commands":                       batchCmds,
+			"lagging_or_restarted_replicas_compared":    replays,
+			"lagging_or_restarted_skipped_open_command": lagSkipped,
+			"known_finding_hits":                        knownHits,
+			"violation_samples":                         vs,
 		},
 		Assumptions: []string{"the oracle is the standalone execution of the same binary, so nothing is demanded beyond the statement", "excluded: commands refused in cluster mode by design, SELECT, commands whose reply depends on the local clock or on map iteration order, blocking pops"}}
 	_ = evidence.Write(o.Evidence, ev)
